@@ -52,6 +52,12 @@ Inductive eelem :=
 
 Inductive edecl := EDecl (nm : name) (elems : list eelem).
 
+(* options of an extension range: verification (Some true = DECLARATION, Some false = UNVERIFIED)
+   and the extension declarations as written *)
+Record xdecl := mkXDecl { xd_number : option Z; xd_full_name : option name; xd_type : option name;
+                          xd_reserved : bool; xd_repeated : bool }.
+Record xopts := mkXOpts { xo_verification : option bool; xo_decls : list xdecl }.
+
 Inductive fdecl := FDecl (lbl : label) (ty : ftype) (nm : name) (num : Z) (opts : list fopt).
 
 Inductive melem :=
@@ -63,6 +69,7 @@ Inductive melem :=
 | MEnum (e : edecl)
 | MExtend (extendee : name) (elems : list melem) (* members: MField / MGroup *)
 | MExtensions (rs : list srange)
+| MExtensionsOpt (rs : list srange) (o : xopts)   (* extensions ... [verification = ..., declaration = {...}] *)
 | MReserved (rs : list srange)
 | MReservedNames (strs idents : list name)
 | MMsgSet (v : oval).                            (* option message_set_wire_format = v *)
@@ -177,6 +184,7 @@ Inductive ecls :=
 | EJsonNameExt | EJsonNameBrackets | EJsonNameNotString | EDefaultRepeated | EDefaultMessage
 | EDefaultBadValue | EJsonConflict | EEnumJsonConflict | EClosedEnumImplicit | EDefaultImplicit
 | EMapEnumFirstZero
+| EExtDeclReserved | EExtDeclName | EExtDeclType | EExtDeclRepeated | EExtDeclMissing | EExtDeclBad
 | EOther.
 
 Definition ecls_num (e : ecls) : N :=
@@ -197,7 +205,9 @@ Definition ecls_num (e : ecls) : N :=
   | EExtTagNotInRange => 51 | EProto3Extend => 52 | EMapEntryRef => 53 | EJsonNameExt => 54
   | EJsonNameBrackets => 55 | EJsonNameNotString => 56 | EDefaultRepeated => 57
   | EDefaultMessage => 58 | EDefaultBadValue => 59 | EJsonConflict => 60 | EEnumJsonConflict => 61
-  | EClosedEnumImplicit => 62 | EDefaultImplicit => 63 | EMapEnumFirstZero => 64 | EOther => 0
+  | EClosedEnumImplicit => 62 | EDefaultImplicit => 63 | EMapEnumFirstZero => 64
+  | EExtDeclReserved => 65 | EExtDeclName => 66 | EExtDeclType => 67 | EExtDeclRepeated => 68
+  | EExtDeclMissing => 69 | EExtDeclBad => 70 | EOther => 0
   end%N.
 Definition ecls_eqb (a b : ecls) : bool := N.eqb (ecls_num a) (ecls_num b).
 
